@@ -31,6 +31,9 @@ var c06Subjects = []c06Subject{
 	{"Mixed.Case.Example.COM", "mixed.case.example.com"},
 	{"bücher.example", "xn--bcher-kva.example"},
 	{"xn--bcher-kva.example", "xn--bcher-kva.example"},
+	{"BÜCHER.Example", "xn--bcher-kva.example"},
+	{" ÉCOLE.example ", "xn--cole-9oa.example"},
+	{"*.BÜCHER.example", "*.xn--bcher-kva.example"},
 	{"192.0.2.7", "192.0.2.7"},
 	{"2001:db8::7", "2001:db8::7"},
 }
@@ -160,7 +163,16 @@ func c06History(t *testing.T, o *vOut, seed int64, keyTypes []KeyType, idx int) 
 		for step := 0; step < nops; step++ {
 			op := "obtain"
 			if step > 0 {
-				op = []string{"renew", "renew", "compromise", "obtain"}[rng.Intn(4)]
+				op = []string{"renew", "renew", "compromise", "obtain", "dropcert", "obtainfault", "obtain"}[rng.Intn(7)]
+			}
+			// the key storage holds before the operation (one issuer: the pinned key under reuse)
+			prevKey := ""
+			if nIss == 1 {
+				if kb, e := st.Load(ctx, StorageKeys.SitePrivateKey(viss[0].IssuerKey(), subj.canon)); e == nil {
+					if pk, e := PEMDecodePrivateKey(kb); e == nil {
+						prevKey = c06PubHashOfPriv(pk)
+					}
+				}
 			}
 			time.Sleep(time.Duration(1+rng.Intn(48)) * time.Hour) // later NotBefore each time
 			calls0 := 0
@@ -171,6 +183,32 @@ func c06History(t *testing.T, o *vOut, seed int64, keyTypes []KeyType, idx int) 
 			switch op {
 			case "obtain":
 				err = cfg.ObtainCertSync(ctx, subj.given)
+			case "dropcert":
+				// certificate and metadata disappear, the private key stays (an administrator's clean-up,
+				// or the state a crash between the stores leaves): the next obtain really issues
+				for _, vi := range viss {
+					st.Delete(ctx, StorageKeys.SiteCert(vi.IssuerKey(), subj.canon))
+					st.Delete(ctx, StorageKeys.SiteMeta(vi.IssuerKey(), subj.canon))
+				}
+				opsTok = append(opsTok, "dropcert")
+				obsTok = append(obsTok, "-")
+				continue
+			case "obtainfault":
+				// a transient storage error on the first read of a private key
+				fired := false
+				st.Fault = func(n int, kind, key string) error {
+					if kind == "Load" && strings.HasSuffix(key, ".key") && !fired {
+						fired = true
+						return errVInjected
+					}
+					return nil
+				}
+				err = cfg.ObtainCertSync(ctx, subj.given)
+				st.Fault = nil
+				op = "obtain"
+				if fired {
+					o.Stat("key_load_faults_injected", 1)
+				}
 			case "renew":
 				err = cfg.RenewCertSync(ctx, subj.given, true)
 			case "compromise":
@@ -250,6 +288,9 @@ func c06History(t *testing.T, o *vOut, seed int64, keyTypes []KeyType, idx int) 
 				t.Fatalf("harness table wrong for %q: %q vs %q", subj.given, a, subj.canon)
 			}
 			kid := keys.id(keyHash)
+			if reuse && prevKey != "" && prevKey != keyHash && !compromised[keys.id(prevKey)] {
+				o.Mon("C06 pinned-key-replaced", map[string]any{"seed": seed, "subject": subj.given, "op": op, "history": strings.Join(opsTok, ",")})
+			}
 			if compromised[kid] {
 				o.Mon("C06 compromised-key-reused", map[string]any{"seed": seed, "subject": subj.given, "op": op})
 			}
